@@ -1,3 +1,4 @@
+From Coq Require Import Lia.
 From Errdef Require Import Base.Str Model.Core Model.GoErrors Model.Prog Model.Tree0 Model.Fmt Check.Render Check.C18 Proofs.C08Proofs.
 Local Open Scope string_scope.
 
@@ -141,35 +142,6 @@ Proof. pose proof (embeds_one t p "") as H. now rewrite app_nil_r_s in H. Qed.
 Lemma embeds_nil_any s : Embeds [] s.
 Proof. constructor. Qed.
 
-(* ---------- every part of the detail block shows its tokens, in order ---------- *)
-Lemma embeds_fields indent all :
-  Embeds (map (fun nv : string * fval => fst nv ++ ": ") all) (String.concat "" (map (fmt_field indent) all)).
-Proof.
-  induction all as [|nv r IH]; [constructor|].
-  cbn [map]. replace (String.concat "" (fmt_field indent nv :: map (fmt_field indent) r))
-    with (fmt_field indent nv ++ String.concat "" (map (fmt_field indent) r)).
-  - apply (embeds_app [fst nv ++ ": "] _ _ _); [|exact IH].
-    unfold fmt_field. replace (nl ++ indent ++ "  " ++ fst nv ++ ": " ++ _)
-      with ((nl ++ indent ++ "  ") ++ (fst nv ++ ": ") ++
-            (let v := fv_plus (snd nv) in if has_nl v then "|" ++ nl ++ String.concat "" (map (fun l => indent ++ "    " ++ l ++ nl) (split_nl v)) else v)).
-    + apply embeds_one.
-    + now rewrite !app_assoc_s.
-  - destruct (map (fmt_field indent) r) eqn:E; cbn; [now rewrite app_nil_r_s|reflexivity].
-Qed.
-
-Definition frame_tokens (f : frame) : list string :=
-  if str_eqb (fr_file f) "" then [] else [fr_func f; fr_file f ++ ":" ++ dec_Z (fr_line f)].
-
-Lemma embeds_frame indent src f : Embeds (frame_tokens f) (fmt_frame indent src f).
-Proof.
-  unfold frame_tokens, fmt_frame. destruct (str_eqb (fr_file f) ""); [constructor|].
-  set (tail := match src with Some s => _ | None => "" end).
-  replace (nl ++ indent ++ "  " ++ fr_func f ++ nl ++ indent ++ "    " ++ fr_file f ++ ":" ++ dec_Z (fr_line f) ++ tail)
-    with ((nl ++ indent ++ "  ") ++ fr_func f ++ ((nl ++ indent ++ "    ") ++ (fr_file f ++ ":" ++ dec_Z (fr_line f)) ++ tail)).
-  - constructor. apply embeds_one.
-  - now rewrite !app_assoc_s.
-Qed.
-
 Lemma concat_cons_s x l : String.concat "" (x :: l) = x ++ String.concat "" l.
 Proof. destruct l; cbn; [now rewrite app_nil_r_s|reflexivity]. Qed.
 
@@ -180,49 +152,274 @@ Proof.
   cbn [List.concat]. rewrite concat_cons_s. now apply embeds_app.
 Qed.
 
-Lemma embeds_stack m indent e :
-  Embeds (flat_map frame_tokens (e_stack e)) (fmt_stack m indent e).
+(* ---------- helpers ---------- *)
+Lemma embeds_exact (l : list string) : Embeds l (String.concat "" l).
 Proof.
-  unfold fmt_stack. destruct (src_settings e) as [sl sd]. rewrite flat_map_concat_map.
-  apply embeds_concat.
-  generalize 0 as start. induction (e_stack e) as [|f r IH]; intros start; cbn; [constructor|].
-  constructor; [apply embeds_frame|apply IH].
+  induction l as [|x r IH]; [constructor|]. rewrite concat_cons_s.
+  change (x ++ String.concat "" r) with ("" ++ x ++ String.concat "" r). now constructor.
 Qed.
 
-Lemma embeds_details m e indent hc : is_errdef_error e = true ->
-  Embeds (node_tokens e) (fmt_details m e indent hc).
+Lemma concat_map_shift ind (ls : list string) :
+  nl ++ String.concat "" (map (fun l => ind ++ "    " ++ l ++ nl) ls) =
+  String.concat "" (map (fun l => nl ++ ind ++ "    " ++ l) ls) ++ nl.
 Proof.
-  intros He. unfold node_tokens, fmt_details. rewrite He.
-  apply (embeds_app [err_msg e]); [apply embeds_self|].
-  apply (embeds_app []); [constructor|].
+  induction ls as [|l r IH]; [reflexivity|]. cbn [map]. rewrite !concat_cons_s.
+  rewrite !app_assoc_s. rewrite <- IH. reflexivity.
+Qed.
+
+Lemma embeds_field ind nv : Embeds (field_toks ind nv) (fmt_field ind nv).
+Proof.
+  unfold field_toks, fmt_field. cbv zeta. destruct (has_nl (fv_plus (snd nv))).
+  - replace (nl ++ ind ++ "  " ++ fst nv ++ ": " ++ "|" ++ nl ++
+             String.concat "" (map (fun l => ind ++ "    " ++ l ++ nl) (split_nl (fv_plus (snd nv)))))
+      with ("" ++ (nl ++ ind ++ "  " ++ fst nv ++ ": |") ++
+            (String.concat "" (map (fun l => nl ++ ind ++ "    " ++ l) (split_nl (fv_plus (snd nv)))) ++ nl)).
+    + constructor. apply embeds_append_right. apply embeds_exact.
+    + rewrite <- concat_map_shift. change ("" ++ ?x) with x. rewrite !app_assoc_s. reflexivity.
+  - apply embeds_self.
+Qed.
+
+Lemma embeds_fields2 ind all :
+  Embeds (flat_map (field_toks ind) all) (String.concat "" (map (fmt_field ind) all)).
+Proof.
+  rewrite flat_map_concat_map. apply embeds_concat.
+  induction all as [|nv r IH]; cbn [map]; constructor; [apply embeds_field|exact IH].
+Qed.
+
+(* ---------- snippet lines ---------- *)
+Lemma has_nl_app a b : has_nl (a ++ b) = has_nl a || has_nl b.
+Proof. induction a as [|c a IH]; cbn; [reflexivity|]. now rewrite IH, orb_assoc. Qed.
+
+Lemma has_nl_digit n : (n < 10)%N -> has_nl (digit n) = false.
+Proof.
+  intros H. unfold digit. cbn [has_nl]. rewrite N_ascii_embedding by lia.
+  destruct (N.eqb_spec (48 + n) 10); [lia|reflexivity].
+Qed.
+
+Lemma has_nl_dec_fuel f : forall n acc, has_nl (dec_fuel f n acc) = has_nl acc.
+Proof.
+  induction f as [|f IH]; intros n acc; cbn [dec_fuel]; [reflexivity|]. cbv zeta.
+  assert (D : has_nl (digit (n mod 10) ++ acc) = has_nl acc).
+  { rewrite has_nl_app, has_nl_digit; [reflexivity|]. apply N.mod_lt. lia. }
+  destruct (N.ltb n 10); [exact D|]. now rewrite IH.
+Qed.
+
+Lemma has_nl_dec n : has_nl (dec n) = false.
+Proof. unfold dec. now rewrite has_nl_dec_fuel. Qed.
+Lemma has_nl_dec_Z z : has_nl (dec_Z z) = false.
+Proof. unfold dec_Z. destruct (Z.ltb z 0); [rewrite has_nl_app|]; now rewrite has_nl_dec. Qed.
+Lemma has_nl_spaces n : has_nl (String.concat "" (repeat " " n)) = false.
+Proof. induction n as [|n IH]; [reflexivity|]. cbn [repeat]. rewrite concat_cons_s, has_nl_app, IH. reflexivity. Qed.
+Lemma has_nl_pad w s : has_nl (pad_left w s) = has_nl s.
+Proof. unfold pad_left. now rewrite has_nl_app, has_nl_spaces. Qed.
+
+(* strings.Split on newline: a newline-free first line is split off *)
+Lemma split_acc_spec s : forall cur,
+  split_nl_acc s cur = match split_nl_acc s "" with x :: r => (cur ++ x) :: r | [] => [cur] end.
+Proof.
+  induction s as [|c s IH]; intros cur; cbn [split_nl_acc].
+  - now rewrite app_nil_r_s.
+  - destruct (N.eqb (N_of_ascii c) 10).
+    + now rewrite app_nil_r_s.
+    + rewrite (IH (cur ++ String c "")), (IH ("" ++ String c "")).
+      destruct (split_nl_acc s "") as [|x r]; [reflexivity|]. now rewrite !app_assoc_s.
+Qed.
+
+Lemma split_nl_line x rest : has_nl x = false -> split_nl (x ++ nl ++ rest) = x :: split_nl rest.
+Proof.
+  unfold split_nl. induction x as [|c x IH]; intros H.
+  - reflexivity.
+  - cbn [has_nl] in H. apply orb_false_iff in H as [Hc Hx]. cbn [append split_nl_acc]. rewrite Hc.
+    rewrite split_acc_spec, (IH Hx). reflexivity.
+Qed.
+Lemma split_nl_last x : has_nl x = false -> split_nl x = [x].
+Proof.
+  unfold split_nl. induction x as [|c x IH]; intros H; [reflexivity|].
+  cbn [has_nl] in H. apply orb_false_iff in H as [Hc Hx]. cbn [split_nl_acc]. rewrite Hc.
+  rewrite split_acc_spec, (IH Hx). reflexivity.
+Qed.
+
+Lemma split_join (ls : list string) : ls <> [] -> forallb (fun l => negb (has_nl l)) ls = true ->
+  split_nl (join nl ls) = ls.
+Proof.
+  induction ls as [|x r IH]; intros Hne H; [congruence|].
+  cbn [forallb] in H. apply andb_true_iff in H as [Hx Hr]. apply negb_true_iff in Hx.
+  destruct r as [|y r]; [now apply split_nl_last|].
+  change (join nl (x :: y :: r)) with (x ++ nl ++ join nl (y :: r)).
+  rewrite split_nl_line by exact Hx. f_equal. apply IH; [discriminate|exact Hr].
+Qed.
+
+(* ---------- frameSource ---------- *)
+Definition rend (width : nat) (line : Z) (il : Z * string) : string :=
+  (if Z.eqb (fst il) line then "> " else "  ") ++ pad_left width (dec_Z (fst il)) ++ ": " ++ snd il.
+
+Lemma frame_source_rend w line : w_lines w <> [] ->
+  frame_source w line =
+  join nl (map (rend (String.length (dec_Z (w_start w + Z.of_nat (List.length (w_lines w)) - 1))) line)
+               (combine (map (fun i => (w_start w + Z.of_nat i)%Z) (seq 0 (List.length (w_lines w)))) (w_lines w))).
+Proof. unfold frame_source. destruct (w_lines w) as [|x r]; [congruence|]. reflexivity. Qed.
+
+Lemma rend_nl_free width line il : has_nl (snd il) = false -> has_nl (rend width line il) = false.
+Proof.
+  intros H. unfold rend. rewrite !has_nl_app, has_nl_pad, has_nl_dec_Z, H.
+  destruct (Z.eqb (fst il) line); reflexivity.
+Qed.
+
+Lemma rendered_nl_free width line a : forall ls start,
+  forallb (fun l => negb (has_nl l)) ls = true ->
+  forallb (fun l => negb (has_nl l))
+    (map (rend width line) (combine (map (fun i => (a + Z.of_nat i)%Z) (seq start (List.length ls))) ls)) = true.
+Proof.
+  induction ls as [|x r IH]; intros start H; [reflexivity|].
+  cbn [forallb] in H. apply andb_true_iff in H as [Hx Hr]. apply negb_true_iff in Hx.
+  cbn [List.length seq map combine forallb]. rewrite rend_nl_free by exact Hx. cbn [negb andb]. now apply IH.
+Qed.
+
+Lemma rendered_nth width line a : forall ls start k text, nth_error ls k = Some text ->
+  exists l1 l2,
+    map (rend width line) (combine (map (fun i => (a + Z.of_nat i)%Z) (seq start (List.length ls))) ls) =
+    (l1 ++ rend width line ((a + Z.of_nat (start + k))%Z, text) :: l2)%list.
+Proof.
+  induction ls as [|x r IH]; intros start k text H; [destruct k; discriminate|].
+  cbn [List.length seq map combine]. destruct k as [|k]; cbn [nth_error] in H.
+  - inversion H; subst. exists [], (map (rend width line) (combine (map (fun i => (a + Z.of_nat i)%Z) (seq (S start) (List.length r))) r)).
+    now rewrite Nat.add_0_r.
+  - destruct (IH (S start) k text H) as [l1 [l2 E]]. exists (rend width line ((a + Z.of_nat start)%Z, x) :: l1), l2.
+    rewrite E. cbn [List.app]. replace (start + S k) with (S start + k) by lia. reflexivity.
+Qed.
+
+Lemma concat_map_mid (g : string -> string) l1 x l2 :
+  String.concat "" (map g (l1 ++ x :: l2)%list) =
+  String.concat "" (map g l1) ++ g x ++ String.concat "" (map g l2).
+Proof.
+  induction l1 as [|y l1 IH]; cbn [List.app map]; rewrite !concat_cons_s; [reflexivity|].
+  now rewrite IH, app_assoc_s.
+Qed.
+
+Lemma join_nonempty c x r : exists rest, join nl (String c x :: r) = String c rest.
+Proof. destruct r as [|y r]; [now exists x|]. exists (x ++ nl ++ join nl (y :: r)). reflexivity. Qed.
+
+Lemma join_marked_nonempty (b : bool) y r : str_eqb (join nl (((if b then "> " else "  ") ++ y) :: r)) "" = false.
+Proof. destruct b, r; reflexivity. Qed.
+
+(* the snippet block of a frame shows the marked line of the frame's own line *)
+Lemma embeds_snippet ind w line t :
+  forallb (fun l => negb (has_nl l)) (w_lines w) = true -> marked_line w line = Some t ->
+  str_eqb (frame_source w line) "" = false /\
+  Embeds [nl ++ ind ++ "    " ++ t]
+    (String.concat "" (map (fun l => nl ++ ind ++ "    " ++ l) (split_nl (frame_source w line)))).
+Proof.
+  intros Hwf Hm. unfold marked_line in Hm. cbv zeta in Hm.
+  destruct (Z.ltb_spec (line - w_start w) 0) as [|Hk]; [discriminate|].
+  destruct (nth_error (w_lines w) (Z.to_nat (line - w_start w))) as [text|] eqn:En; [|discriminate].
+  inversion Hm; subst t; clear Hm.
+  assert (Hne : w_lines w <> []) by (intros E; rewrite E in En; destruct (Z.to_nat (line - w_start w)); discriminate).
+  rewrite (frame_source_rend w line Hne).
+  set (width := String.length (dec_Z (w_start w + Z.of_nat (List.length (w_lines w)) - 1))).
+  destruct (rendered_nth width line (w_start w) (w_lines w) 0 _ text En) as [l1 [l2 E]].
+  pose proof (rendered_nl_free width line (w_start w) (w_lines w) 0 Hwf) as Hfree.
+  replace (w_start w + Z.of_nat (0 + Z.to_nat (line - w_start w)))%Z with line in E by lia.
+  split.
+  - destruct (w_lines w) as [|x r] eqn:El; [congruence|]. cbn [List.length seq map combine].
+    unfold rend at 1. cbn [fst snd].
+    apply join_marked_nonempty.
+  - rewrite split_join; [|rewrite E; destruct l1; discriminate|exact Hfree].
+    rewrite E, concat_map_mid. unfold rend. cbn [fst snd]. rewrite Z.eqb_refl.
+    apply embeds_one.
+Qed.
+
+(* ---------- frames, stack, details ---------- *)
+Lemma srcmap_wf_lookup m file line w : srcmap_wf m = true -> lookup_src m file line = Some w ->
+  forallb (fun l => negb (has_nl l)) (w_lines w) = true.
+Proof.
+  unfold srcmap_wf, lookup_src. intros Hwf H.
+  destruct (find _ m) as [e|] eqn:F; [|discriminate]. cbn in H. inversion H; subst.
+  apply find_some in F as [Hin _]. rewrite forallb_forall in Hwf. exact (Hwf e Hin).
+Qed.
+
+Lemma embeds_frame2 m sl sd ind i f : srcmap_wf m = true ->
+  Embeds (frame_toks m sl sd ind (i, f))
+    (fmt_frame ind (if want_source sl sd i f
+                    then option_map (fun w => frame_source w (fr_line f)) (lookup_src m (fr_file f) (fr_line f))
+                    else None) f).
+Proof.
+  intros Hwf. unfold frame_toks, fmt_frame. cbn [fst snd]. destruct (str_eqb (fr_file f) ""); [constructor|].
+  set (tail := match (if want_source sl sd i f then _ else None) with Some s => _ | None => "" end).
+  set (marks := if want_source sl sd i f then _ else []).
+  assert (Ht : Embeds marks tail).
+  { unfold marks, tail. destruct (want_source sl sd i f); [|constructor].
+    destruct (lookup_src m (fr_file f) (fr_line f)) as [w|] eqn:L; cbn [option_map]; [|constructor].
+    destruct (marked_line w (fr_line f)) as [t|] eqn:M; [|constructor].
+    destruct (embeds_snippet ind w (fr_line f) t (srcmap_wf_lookup m _ _ w Hwf L) M) as [Hne He].
+    rewrite Hne. exact He. }
+  replace (nl ++ ind ++ "  " ++ fr_func f ++ nl ++ ind ++ "    " ++ fr_file f ++ ":" ++ dec_Z (fr_line f) ++ tail)
+    with ("" ++ (nl ++ ind ++ "  " ++ fr_func f) ++ ("" ++ (nl ++ ind ++ "    " ++ fr_file f ++ ":" ++ dec_Z (fr_line f)) ++ tail))
+    by (rewrite !app_assoc_s; reflexivity).
+  constructor. constructor. exact Ht.
+Qed.
+
+Lemma embeds_stack2 m ind e : srcmap_wf m = true ->
+  Embeds (flat_map (frame_toks m (fst (src_settings e)) (snd (src_settings e)) ind)
+            (combine (seq 0 (List.length (e_stack e))) (e_stack e)))
+         (fmt_stack m ind e).
+Proof.
+  intros Hwf. unfold fmt_stack. destruct (src_settings e) as [sl sd]. cbn [fst snd].
+  rewrite flat_map_concat_map. apply embeds_concat.
+  generalize 0 as start. induction (e_stack e) as [|f r IH]; intros start; cbn; [constructor|].
+  constructor; [apply embeds_frame2; exact Hwf|apply IH].
+Qed.
+
+Lemma embeds_line ind t rest : Embeds [nl ++ ind ++ t] (nl ++ ind ++ t ++ rest).
+Proof.
+  replace (nl ++ ind ++ t ++ rest) with ("" ++ (nl ++ ind ++ t) ++ rest) by (rewrite !app_assoc_s; reflexivity).
+  apply embeds_one.
+Qed.
+
+Lemma embeds_cons_line ind t ts rest : Embeds ts rest -> Embeds ((nl ++ ind ++ t) :: ts) (nl ++ ind ++ t ++ rest).
+Proof.
+  intros H. replace (nl ++ ind ++ t ++ rest) with ("" ++ (nl ++ ind ++ t) ++ rest) by (rewrite !app_assoc_s; reflexivity).
+  now constructor.
+Qed.
+
+(* fmt_details = message, then a text in which the detail tokens are embedded *)
+Definition details_rest (m : srcmap) (e : err) (indent : string) (has_causes : bool) : string :=
+  let all := e_fields_all e in
+  let has_details := negb (str_eqb (e_kind e) "") || negb (Nat.eqb (List.length all) 0) || negb (Nat.eqb (List.length (e_stack e)) 0) in
+  (if has_details || has_causes then nl ++ indent ++ "---" else "") ++
+  (if str_eqb (e_kind e) "" then "" else nl ++ indent ++ "kind: " ++ e_kind e) ++
+  (match all with [] => "" | _ => nl ++ indent ++ "fields:" ++ String.concat "" (map (fmt_field indent) all) end) ++
+  (match e_stack e with [] => "" | _ => nl ++ indent ++ "stack:" ++ fmt_stack m indent e end).
+
+Lemma fmt_details_split m e indent hc : fmt_details m e indent hc = err_msg e ++ details_rest m e indent hc.
+Proof. reflexivity. Qed.
+
+Lemma embeds_details2 m e indent hc : srcmap_wf m = true ->
+  Embeds (detail_toks m e indent) (details_rest m e indent hc).
+Proof.
+  intros Hwf. unfold detail_toks, details_rest. cbv zeta.
+  apply embeds_prepend.
   apply embeds_app; [destruct (str_eqb (e_kind e) ""); [constructor|]|].
-  - replace (nl ++ indent ++ "kind: " ++ e_kind e) with ((nl ++ indent) ++ ("kind: " ++ e_kind e)) by now rewrite !app_assoc_s.
-    apply embeds_suffix.
+  - apply embeds_self.
   - apply embeds_app.
     + destruct (e_fields_all e) as [|x all] eqn:Ea; [constructor|].
-      replace (nl ++ indent ++ "fields:" ++ String.concat "" (map (fmt_field indent) (x :: all)))
-        with ((nl ++ indent) ++ "fields:" ++ String.concat "" (map (fmt_field indent) (x :: all))) by now rewrite !app_assoc_s.
-      constructor. apply embeds_fields.
+      apply embeds_cons_line. apply embeds_fields2.
     + destruct (e_stack e) as [|f r] eqn:Es; [constructor|].
-      replace (nl ++ indent ++ "stack:" ++ fmt_stack m indent e)
-        with ((nl ++ indent) ++ "stack:" ++ fmt_stack m indent e) by now rewrite !app_assoc_s.
-      constructor. pose proof (embeds_stack m indent e) as H. now rewrite Es in H.
+      apply embeds_cons_line. pose proof (embeds_stack2 m indent e Hwf) as H. now rewrite Es in H.
 Qed.
 
-Lemma embeds_header indent n : Embeds (header_token n) (causes_header indent n).
+Lemma embeds_header2 indent n : Embeds (header_tok indent n) (causes_header indent n).
 Proof.
-  unfold header_token, causes_header. destruct n as [|[|n]]; [constructor| |].
-  - cbn [Nat.eqb]. replace (nl ++ indent ++ "causes: (" ++ "1 error" ++ ")") with ((nl ++ indent) ++ "causes: (1 error)") by now rewrite !app_assoc_s.
-    apply embeds_suffix.
-  - cbn [Nat.eqb]. replace (nl ++ indent ++ "causes: (" ++ (dec_nat (S (S n)) ++ " errors") ++ ")")
-      with ((nl ++ indent) ++ ("causes: (" ++ dec_nat (S (S n)) ++ " errors)")) by (rewrite !app_assoc_s; reflexivity).
-    apply embeds_suffix.
+  unfold header_tok, causes_header. destruct n as [|[|n]]; [constructor| |]; cbn [Nat.eqb].
+  - exact (embeds_self (nl ++ indent ++ "causes: (1 error)")).
+  - rewrite app_assoc_s. exact (embeds_self (nl ++ indent ++ "causes: (" ++ dec_nat (S (S n)) ++ " errors)")).
 Qed.
 
-(* ---------- the whole tree, depth first ---------- *)
-Lemma embeds_kids m indent (l : list tree) :
-  Forall (fun t => forall ind i, Embeds (tree_tokens t) (fmt_node m ind i t)) l ->
-  forall j, Forall2 Embeds (map tree_tokens l)
+(* ---------- the whole tree ---------- *)
+Lemma embeds_kids2 m indent (l : list tree) :
+  Forall (fun t => forall ind i, Embeds (node_toks m ind i t) (fmt_node m ind i t)) l ->
+  forall j, Forall2 Embeds
+    ((fix go (j0 : nat) (l0 : list tree) {struct l0} : list (list string) :=
+        match l0 with [] => [] | k0 :: r0 => node_toks m indent j0 k0 :: go (S j0) r0 end) j l)
     ((fix go (j0 : nat) (l0 : list tree) {struct l0} : list string :=
         match l0 with [] => [] | k0 :: r0 => fmt_node m indent j0 k0 :: go (S j0) r0 end) j l).
 Proof.
@@ -230,33 +427,65 @@ Proof.
   constructor; [apply H1|now apply IHl].
 Qed.
 
-Theorem embeds_node m : forall t indent i, Embeds (tree_tokens t) (fmt_node m indent i t).
+Theorem embeds_node2 m : srcmap_wf m = true -> forall t indent i, Embeds (node_toks m indent i t) (fmt_node m indent i t).
 Proof.
-  induction t as [e kids IH] using tree_ind'. intros indent i. cbn [tree_tokens fmt_node].
-  apply embeds_prepend. apply embeds_prepend. apply embeds_prepend. apply embeds_prepend. apply embeds_prepend.
-  apply embeds_app.
-  - destruct (is_errdef_error e) eqn:He; [now apply embeds_details|].
-    unfold node_tokens. rewrite He. apply embeds_append_right. apply embeds_self.
-  - destruct (Nat.eqb (List.length kids) 0) eqn:En.
-    + destruct kids; [constructor|discriminate].
-    + apply embeds_app; [apply embeds_header|].
-      rewrite flat_map_concat_map. apply embeds_concat. now apply embeds_kids.
+  intros Hwf. induction t as [e kids IH] using tree_ind'. intros indent i. cbn [node_toks fmt_node].
+  set (ind' := indent ++ "    ").
+  (* label line *)
+  match goal with |- Embeds (?lab :: ?rest) (nl ++ indent ++ "[" ++ dec_nat (S i) ++ "] " ++ ?body ++ ?tail) =>
+    assert (Hsplit : exists R, body ++ tail = err_msg e ++ R /\ Embeds rest R) end.
+  { destruct (is_errdef_error e) eqn:He.
+    - exists (details_rest m e ind' (negb (Nat.eqb (List.length kids) 0)) ++
+              (if Nat.eqb (List.length kids) 0 then "" else causes_header ind' (List.length kids) ++
+                 String.concat "" ((fix go (j : nat) (l : list tree) : list string :=
+                                      match l with [] => [] | k :: r => fmt_node m ind' j k :: go (S j) r end) 0 kids))).
+      split; [rewrite fmt_details_split; now rewrite app_assoc_s|].
+      apply embeds_app; [now apply embeds_details2|].
+      destruct (Nat.eqb (List.length kids) 0) eqn:En.
+      + destruct kids; [constructor|discriminate].
+      + apply embeds_app; [apply embeds_header2|]. apply embeds_concat. now apply embeds_kids2.
+    - exists ((if Nat.eqb (List.length kids) 0 then "" else nl ++ indent ++ "    ---") ++
+              (if Nat.eqb (List.length kids) 0 then "" else causes_header ind' (List.length kids) ++
+                 String.concat "" ((fix go (j : nat) (l : list tree) : list string :=
+                                      match l with [] => [] | k :: r => fmt_node m ind' j k :: go (S j) r end) 0 kids))).
+      split; [now rewrite app_assoc_s|]. cbn [List.app].
+      apply embeds_prepend.
+      destruct (Nat.eqb (List.length kids) 0) eqn:En.
+      + destruct kids; [constructor|discriminate].
+      + apply embeds_app; [apply embeds_header2|]. apply embeds_concat. now apply embeds_kids2. }
+  destruct Hsplit as [R [E HR]]. rewrite E.
+  replace (nl ++ indent ++ "[" ++ dec_nat (S i) ++ "] " ++ err_msg e ++ R)
+    with ("" ++ (nl ++ indent ++ "[" ++ dec_nat (S i) ++ "] " ++ err_msg e) ++ R) by (rewrite !app_assoc_s; reflexivity).
+  now constructor.
 Qed.
 
-Theorem plus_v_complete_in_order m e :
+(* %+v of an errdef error: the message, then a text showing plus_toks in order *)
+Theorem plus_v_shows m e : srcmap_wf m = true ->
   (match e_def e with Some d => d_fmt d | None => None end) = None ->
   is_errdef_error e = true ->
-  in_order (tree_tokens (tree_of e)) (format_error m "+v" e) = true.
+  exists R, format_error m "+v" e = err_msg e ++ R /\ Embeds (plus_toks m e) R.
 Proof.
-  intros Hf He. apply embeds_in_order. unfold format_error. rewrite Hf. unfold unwrap_tree.
-  destruct (tree_of e) as [e' kids] eqn:T.
-  assert (e' = e) by (destruct e; cbn in T; inversion T; reflexivity). subst e'.
-  cbn [t_kids tree_tokens]. apply embeds_app; [now apply embeds_details|].
-  destruct (Nat.eqb (List.length kids) 0) eqn:En.
-  - destruct kids; [constructor|discriminate].
-  - apply embeds_app; [apply embeds_header|].
-    unfold fmt_nodes. rewrite flat_map_concat_map. apply embeds_concat. apply embeds_kids.
-    apply Forall_forall. intros t _. apply embeds_node.
+  intros Hwf Hf He. unfold format_error. rewrite Hf.
+  exists (details_rest m e "" (negb (Nat.eqb (List.length (unwrap_tree e)) 0)) ++
+          (if Nat.eqb (List.length (unwrap_tree e)) 0 then ""
+           else causes_header "" (List.length (unwrap_tree e)) ++ fmt_nodes m "  " (unwrap_tree e))).
+  split; [rewrite fmt_details_split; now rewrite app_assoc_s|].
+  unfold plus_toks. apply embeds_app; [now apply embeds_details2|].
+  destruct (Nat.eqb (List.length (unwrap_tree e)) 0) eqn:En.
+  - destruct (unwrap_tree e); [constructor|discriminate].
+  - apply embeds_app; [apply embeds_header2|]. unfold nodes_toks, fmt_nodes. apply embeds_concat.
+    apply embeds_kids2. apply Forall_forall. intros t _. now apply embeds_node2.
+Qed.
+
+Theorem shows_after_msg_complete msg toks R : Embeds toks R -> shows_after_msg msg toks (msg ++ R) = true.
+Proof. intros H. unfold shows_after_msg. rewrite prefix_rest_app. now apply embeds_in_order. Qed.
+
+Theorem plus_v_complete_in_order m e : srcmap_wf m = true ->
+  (match e_def e with Some d => d_fmt d | None => None end) = None ->
+  is_errdef_error e = true ->
+  shows_after_msg (err_msg e) (plus_toks m e) (format_error m "+v" e) = true.
+Proof.
+  intros Hwf Hf He. destruct (plus_v_shows m e Hwf Hf He) as [R [-> HR]]. now apply shows_after_msg_complete.
 Qed.
 
 (* ---------- plain verbs, formatter, snippets ---------- *)
@@ -315,16 +544,16 @@ Definition ok1_main (s : st) (given : list rlit) (m : srcmap) (o : obs1) : bool 
           str_eqb (o_q o) (custom_fmt id "q" (err_msg e)) && str_eqb (o_plus o) (custom_fmt id "v" (err_msg e))
       | None =>
           str_eqb (o_s o) (err_msg e) && str_eqb (o_v o) (err_msg e) && str_eqb (o_q o) (go_quote (err_msg e)) &&
-          in_order (tree_tokens (tree_of e)) (o_plus o)
+          shows_after_msg (err_msg e) (plus_toks m e) (o_plus o)
       end
   | None => false
   end.
 
-Theorem corr_implies_ok_main s given m o :
+Theorem corr_implies_ok_main s given m o : srcmap_wf m = true ->
   (forall e, subject_err s given (o_subject o) = Some e -> is_errdef_error e = true) ->
   corr1 s given m o = true -> ok1_main s given m o = true.
 Proof.
-  unfold corr1, ok1_main. intros Hs H. destruct (subject_err s given (o_subject o)) as [e|] eqn:E; [|discriminate].
+  unfold corr1, ok1_main. intros Hwf Hs H. destruct (subject_err s given (o_subject o)) as [e|] eqn:E; [|discriminate].
   apply andb_true_iff in H as [H H4]. apply andb_true_iff in H as [H H3]. apply andb_true_iff in H as [H1 H2].
   destruct (match e_def e with Some d => d_fmt d | None => None end) as [id|] eqn:F.
   - rewrite (formatter_replaces m e id "s" F) in H1. rewrite (formatter_replaces m e id "v" F) in H2.
@@ -332,5 +561,5 @@ Proof.
     now rewrite H1, H2, H3, H4.
   - destruct (plain_verbs m e F) as [A [B C]]. rewrite A in H1. rewrite B in H2. rewrite C in H3.
     rewrite H1, H2, H3. cbn [andb]. apply str_eqb_eq in H4. rewrite H4.
-    apply plus_v_complete_in_order; [exact F|now apply Hs].
+    apply plus_v_complete_in_order; [exact Hwf|exact F|now apply Hs].
 Qed.
